@@ -1,6 +1,75 @@
-(* placeholder until StreamProofs lands *)
+(* Property C11 — stream framing delivers each TLV exactly once for any chunking of the stream, for streams of
+   unbounded length.  Only theorem statements closed by `exact`, each followed by Print Assumptions.
+   Model: Face/Stream.v (fw/face/stream-transport.go readTlvStream; std/engine/face/stream_face.go Run).
+   `run true stream sched` = (result, frames handed to onFrame, bytes consumed, final buffer state); a schedule item
+   RReq k is a Read returning min(k, free buffer space, bytes remaining) bytes (so every partition of the stream into
+   reads, including zero-byte reads, is a schedule), RIgn a Read failing with an ignorable error. *)
 From Base Require Import Bytes VarNum.
-From Face Require Import GenConsts Stream.
+From Face Require Import GenConsts Stream StreamProofs.
 Open Scope N_scope.
-Example c11_example : frames_eqb (snd (app_frames (mk_block 6 [1;2;3] ++ mk_block 5 []))) [mk_block 6 [1;2;3]; mk_block 5 []] = true.
-Proof. vm_compute. reflexivity. Qed.
+
+(* Core theorem.  Well-formed = shortest-form T and L, whole block at most MaxNDNPacketSize bytes (wf_block).
+   For every list of well-formed blocks - of any length: a run observes a finite prefix of an unbounded stream - and
+   every read schedule, the framer does not fail, the frames handed up are exactly the leading blocks that are
+   complete within the consumed bytes (bs = frames ++ rs: byte-identical, in order, none lost, duplicated, split or
+   merged), and the unread remainder p is a strict prefix of the next block sitting at the front of the buffer. *)
+Theorem framing_exact : forall bs sched, Forall wf_block bs ->
+  exists frames rs p consumed,
+    run true (concat bs) sched = (SOk, frames, consumed, mkS 0 p) /\
+    bs = frames ++ rs /\ strictpre p rs /\
+    firstn (N.to_nat consumed) (concat bs) = concat frames ++ p.
+Proof. exact framing_exact_lemma. Qed.
+Print Assumptions framing_exact.
+
+(* Once all bytes have been read, all blocks have been handed up. *)
+Theorem framing_complete : forall bs sched, Forall wf_block bs ->
+  snd (fst (run true (concat bs) sched)) = lenN (concat bs) ->
+  fst (fst (fst (run true (concat bs) sched))) = SOk /\ snd (fst (fst (run true (concat bs) sched))) = bs.
+Proof. exact framing_complete_lemma. Qed.
+Print Assumptions framing_complete.
+
+(* Moving the unread bytes to the front never loses part of a block, and the buffer never fills up (a Read is never
+   handed an empty slice): after any run the parse offset is 0, fewer than MaxNDNPacketSize bytes are unread and the
+   write offset is strictly inside the buffer. *)
+Theorem compaction_safe_never_full : forall bs sched, Forall wf_block bs ->
+  let st := snd (run true (concat bs) sched) in
+  tlvOff st = 0 /\ lenN (unread st) < c_MaxNDNPacketSize /\ recvOff st < c_recvBufSize.
+Proof. exact compaction_safe_never_full_lemma. Qed.
+Print Assumptions compaction_safe_never_full.
+
+(* The decomposition of the core theorem is the one computed by the run-time oracle (split_blocksN), which the
+   runner evaluates on the frames observed from the implementation. *)
+Theorem oracle_split_agrees : forall ds rs p,
+  Forall (fun b => b <> []) rs -> strictpre p rs ->
+  split_blocksN (ds ++ rs) (lenN (concat ds ++ p)) = (ds, p).
+Proof.
+  exact (fun ds rs p Hne Hp =>
+    eq_trans (split_blocksN_spec (ds ++ rs) (lenN (concat ds ++ p)))
+      (eq_trans (f_equal (split_blocks (ds ++ rs)) (eq_trans (f_equal N.to_nat (lenN_spec (concat ds ++ p))) (Nat2N.id _)))
+                (split_blocks_char ds rs p Hne Hp))).
+Qed.
+Print Assumptions oracle_split_agrees.
+
+(* Application-side reader (T, L, then exactly L bytes): the packets handed to the engine are the blocks. *)
+Theorem app_framing_exact : forall bs, Forall wf_block bs -> app_frames (concat bs) = (AEnd true, bs).
+Proof. exact app_framing_exact_lemma. Qed.
+Print Assumptions app_framing_exact.
+
+(* Outside the statement ("well-formed" = shortest forms): a non-minimal number form is mis-framed. Recorded, not a violation. *)
+Theorem nonminimal_form_misframed :
+  exists stream sched, snd (fst (fst (run true stream sched))) = [[253;0;6]] /\ stream = [253;0;6; 1; 170].
+Proof. exact nonminimal_misframed. Qed.
+Print Assumptions nonminimal_form_misframed.
+
+(* non-vacuity: three well-formed blocks (1-byte and 3-byte length forms, a 3-byte type), read 1 byte at a time, then
+   in one piece; both deliver exactly the blocks *)
+Example c11_example :
+  let bs := [mk_block 6 [1;2;3]; mk_block 800 (repeat 7 300); mk_block 5 []] in
+  Forall wf_block bs /\
+  snd (fst (fst (run true (concat bs) (rep_item (RReq 1) 400 [])))) = bs /\
+  snd (fst (fst (run true (concat bs) [RReq 0; RIgn; RReq 100000]))) = bs.
+Proof.
+  split.
+  - repeat (apply Forall_cons; [apply mk_block_wf; [vm_compute; reflexivity|vm_compute; discriminate]|]). apply Forall_nil.
+  - split; vm_compute; reflexivity.
+Qed.
